@@ -21,12 +21,13 @@ VERIF = "/verif"
 KANI_DIR = os.path.join(VERIF, "kani")
 WORK = os.path.join(VERIF, "work")
 NWORKERS = int(os.environ.get("VERIF_JOBS", "8"))
+WORKER_BASE = int(os.environ.get("VERIF_WORKER_BASE", "0"))     # dev only: run beside another driver without sharing a target dir
 
 # Pointer-validity checks are switched off: ruler is safe Rust and the properties
 # are functional; they were ~85% of CBMC's per-property queries (each a separate
 # incremental SAT call on a multi-million-variable formula).  Panic, overflow,
 # bounds and unwinding checks stay on.
-BASE_ARGS = ["-Z", "stubbing", "-Z", "unstable-options", "--no-memory-safety-checks"]
+BASE_ARGS = ["-Z", "stubbing", "-Z", "unstable-options", "--no-memory-safety-checks", "--no-assertion-reach-checks"]
 CBMC_ARGS = ["--cbmc-args", "--unwindset", "memcmp.0:34"]
 
 
@@ -68,12 +69,14 @@ CHECK_RX = re.compile(r"^Check (\d+): (\S+)\n\s+- Status: (\w+)\n\s+- Descriptio
 
 
 def parse_log(text):
-    res = {"checks": 0, "failed": [], "unreachable": 0, "covers": None, "covers_unsat": [],
+    res = {"checks": 0, "property_checks": 0, "failed": [], "unreachable": 0, "covers": None, "covers_unsat": [],
            "symex_s": None, "solver_s": 0.0, "variables": None, "clauses": None, "verdict_line": None,
            "verification_time_s": None, "queries": 0, "stubs": []}
     for m in CHECK_RX.finditer(text):
         res["checks"] += 1
         num, name, status, desc, loc = m.groups()
+        if ".cover." in name or desc.strip().strip('"').startswith("["):
+            res["property_checks"] += 1
         if status == "FAILURE":
             res["failed"].append({"check": name, "description": desc.strip().strip('"'), "location": loc or ""})
         elif status == "UNREACHABLE" and ".cover." not in name:
@@ -127,7 +130,7 @@ def classify(res, timed_out):
     return "pass", "all %d checks hold" % res["checks"]
 
 
-def run_one(harness, worker, timeout_s, mem_kb, extra_args=None, features=None, playback=False, module=None, submod="verif", cbmc_extra=None):
+def run_one(harness, worker, timeout_s, mem_kb, extra_args=None, features=None, playback=False, module=None, submod="verif", cbmc_extra=None, memcmp=None):
     tdir = os.path.join(WORK, "kt_%d" % worker)
     logdir = os.path.join(WORK, "logs")
     os.makedirs(logdir, exist_ok=True)
@@ -138,7 +141,7 @@ def run_one(harness, worker, timeout_s, mem_kb, extra_args=None, features=None, 
     if features:
         cmd += ["--features", features]
     fq = ("%s::%s::%s" % (module.replace("/", "::").replace("::mod", ""), submod, harness)) if module else harness
-    cmd += ["--target-dir", tdir, "--harness", fq] + (["--exact"] if module else []) + (extra_args or []) + CBMC_ARGS + (cbmc_extra or [])
+    cmd += ["--target-dir", tdir, "--harness", fq] + (["--exact"] if module else []) + (extra_args or []) + (["--cbmc-args", "--unwindset", "memcmp.0:%d" % memcmp] if memcmp else CBMC_ARGS) + (cbmc_extra or [])
     env = dict(os.environ)
     env["CARGO_NET_OFFLINE"] = "true"
     t0 = time.time()
@@ -180,9 +183,9 @@ def run_harnesses(names, tier, specs):
     def job(item):
         idx, (n, cpath) = item
         spec = specs.get(n, {})
-        r = run_one(n, idx % NWORKERS, spec.get("timeout", timeout_s), mem_kb,
+        r = run_one(n, (idx + WORKER_BASE) % NWORKERS, spec.get("timeout", timeout_s), mem_kb,
                     extra_args=spec.get("extra_args"), features=spec.get("features"), module=spec.get("module"),
-                    submod=spec.get("submod", "verif"))
+                    submod=spec.get("submod", "verif"), memcmp=spec.get("memcmp"))
         if r["verdict"] in ("pass", "fail"):
             json.dump(r, open(cpath, "w"))
         return n, r
